@@ -3,6 +3,7 @@ package checks
 import (
 	"encoding/json"
 	"fmt"
+	"strings"
 	"time"
 
 	"verif/bt"
@@ -62,6 +63,7 @@ func c14Alphabet() []bt.Op {
 		{Kind: "DropRowRange", Table: tblT, Prefix: []byte("\xff")},
 		{Kind: "DropRowRange", Table: tblT, Prefix: []byte("zz")},
 		{Kind: "DropRowRange", Table: tblT, All: true},
+		{Kind: "DropRowRange", Table: tblT, AllFalse: true},
 		mod(bt.Mod{ID: "f", Op: "drop"}),
 		mod(bt.Mod{ID: "g", Op: "drop"}),
 		mod(bt.Mod{ID: "h", Op: "create", GC: age}),
@@ -175,9 +177,73 @@ func runC14(c *fw.Ctx) {
 				c.State(hh)
 			}
 		}
+		// a table longer than the batching constants of the engines and of the service (batches of ~100 and ~1000
+		// rows): every request that removes many rows at once, then the complete state (reads and stored keys)
+		long := []bt.Op{alpha[0]}
+		const nLong = 2500
+		for lo := 0; lo < nLong; lo += 125 {
+			var es []bt.Entry
+			for i := lo; i < lo+125; i++ {
+				fams := []string{"f"}
+				if i%3 == 0 {
+					fams = []string{"g"} // rows that live in g only: they disappear when g is dropped
+				} else if i%3 == 1 {
+					fams = []string{"f", "g"}
+				}
+				var ms []bt.Mut
+				for _, f := range fams {
+					ms = append(ms, mset(f, "c", 1000, fmt.Sprintf("v%d", i)))
+				}
+				es = append(es, bt.Entry{Key: []byte(fmt.Sprintf("r%04d", i)), Muts: ms})
+			}
+			long = append(long, bt.Op{Kind: "MutateRows", Table: tblT, Entries: es})
+		}
+		for _, fin := range [][]bt.Op{
+			{{Kind: "DropRowRange", Table: tblT, All: true}},
+			{{Kind: "DropRowRange", Table: tblT, Prefix: []byte("r1")}},
+			{{Kind: "DropRowRange", Table: tblT, Prefix: []byte("r")}},
+			{{Kind: "DropRowRange", Table: tblT, Prefix: []byte("r24")}},
+			{{Kind: "DropRowRange", Table: tblT, Prefix: []byte("r0")}, {Kind: "DropRowRange", Table: tblT, All: true}},
+			{{Kind: "ModifyFamilies", Table: tblT, Mods: []bt.Mod{{ID: "g", Op: "drop"}}}},
+			{{Kind: "ModifyFamilies", Table: tblT, Mods: []bt.Mod{{ID: "f", Op: "drop"}, {ID: "g", Op: "drop"}}}},
+			{{Kind: "DeleteTable", Table: tblT}, alpha[0]},
+		} {
+			item++
+			if !c.Mine(item) {
+				continue
+			}
+			if c.Expired() {
+				c.Incomplete("time budget reached in the long-table pass")
+				break
+			}
+			ops := append(append([]bt.Op(nil), long...), fin...)
+			ops = append(ops, bt.Op{Kind: "MutateRow", Table: tblT, Key: []byte("r1500"), Muts: []bt.Mut{mset("f", "c", 2000, "after")}})
+			m, cl, at, hh := runSeq(c, p.engine, nil, ops, true)
+			c.Eval(1)
+			c.Trace(1)
+			c.Trans(int64(len(ops)))
+			if m != "" {
+				t := "setup"
+				if at >= 0 {
+					t = c14Tag(&ops[at])
+				}
+				if len(m) > 1500 {
+					m = m[:1500] + "…"
+				}
+				sc := seqCase{Engine: p.engine, Ops: ops}
+				c.Violate(fmt.Sprintf("C14:%s:long:%s:%s", p.engine, cl, t), m+"\n  sequence: a table of 2500 rows, then "+bt.OpsString(fin), sc, func() string {
+					s, _ := replaySeq(c, "C14", sc, c14Tag)
+					return strings.Replace(s, "C14:"+p.engine+":", "C14:"+p.engine+":long:", 1)
+				})
+				continue
+			}
+			c.State(hh)
+			c.Outcome("long-table:" + fin[0].Kind)
+		}
 		b.Run(c)
 		c.Bound(p.engine+"_depth", p.depth)
 	}
+	c.Bound("long_table_rows", 2500)
 	c.Bound("modification_lists", len(lists))
 	c.Bound("alphabet", len(alpha))
 }
